@@ -27,6 +27,15 @@ CLAIMED = {
                   '_send_deferred_packets resubmits FIFO and keeps packets re-queued by a nested exchange.',
              ref='4/C11', note='time.monotonic uninterpreted; _send_kexinit is an assumed contract here; compressor and '
                   'cipher objects abstract'),
+ 'C08': dict(text='Proof on the real channel buffer code: every DATA/EXTENDED_DATA packet emitted by _flush_send_buf has '
+                  '1 <= len <= min(peer window, max packet size) and the window never goes negative (pre-at-call '
+                  'obligations at the emission site), the flush loop makes progress and is conservative (flat-stream '
+                  'loop invariant, variant), window adjusts re-flush, a delivery never leaves the advertised window below '
+                  'half, data beyond the window is a ProtocolError in _process_data, and a peer maximum packet size < 1 '
+                  'is rejected where it is stored.',
+             ref='4/C08', note='liveness across the network not decided (local progress only); known finding F4 '
+                  '(window charged on delivery, so excess data is accepted while reading is paused) is recorded in '
+                  'known_findings.json; flat/tagged/chunks_ok are recursive spec functions used through instances'),
 }
 
 checks = []
